@@ -11,6 +11,12 @@ type pathState struct {
 	Calls []ssa.CallInstruction // calls executed along the path (in order)
 	Havoc map[*ssa.BasicBlock]bool // loop headers re-entered through a back-edge: their phis are opaque
 	Vals  map[ssa.Value]int64       // values fixed by the abstract class under evaluation (shared, read-only)
+	// Gen counts the back-edges taken so far; BlockGen records the generation in which each block was last entered.
+	// A value defined inside a loop denotes a different run-time value in every iteration: terms carry the
+	// generation of their defining block so that facts about iteration 1 never constrain iteration 2.
+	Gen      int
+	BlockGen map[*ssa.BasicBlock]int
+	Visits   map[*ssa.BasicBlock]int // visits since the enclosing loop's header was last re-entered
 }
 
 func (ps *pathState) clone() *pathState {
@@ -19,6 +25,19 @@ func (ps *pathState) clone() *pathState {
 		n.Cells[k] = v
 	}
 	n.Vals = ps.Vals
+	if len(ps.Visits) > 0 {
+		n.Visits = make(map[*ssa.BasicBlock]int, len(ps.Visits))
+		for k, v := range ps.Visits {
+			n.Visits[k] = v
+		}
+	}
+	n.Gen = ps.Gen
+	if len(ps.BlockGen) > 0 {
+		n.BlockGen = make(map[*ssa.BasicBlock]int, len(ps.BlockGen))
+		for k, v := range ps.BlockGen {
+			n.BlockGen[k] = v
+		}
+	}
 	n.Path = append([]*ssa.BasicBlock(nil), ps.Path...)
 	n.Calls = append([]ssa.CallInstruction(nil), ps.Calls...)
 	if len(ps.Havoc) > 0 {
@@ -168,4 +187,54 @@ func (pv *pathVisitor) walk(b *ssa.BasicBlock, idx int, ps *pathState) {
 		}
 		pv.walk(s, 0, next)
 	}
+}
+
+// genOf returns the generation suffix for a value defined by an instruction ("" outside re-entered loops).
+func (ps *pathState) genOf(v ssa.Value) string {
+	if ps == nil || ps.Gen == 0 {
+		return ""
+	}
+	in, ok := v.(ssa.Instruction)
+	if !ok || in.Block() == nil {
+		return ""
+	}
+	if g := ps.BlockGen[in.Block()]; g > 0 {
+		return "~" + itoa(g)
+	}
+	return ""
+}
+
+func itoa(n int) string {
+	if n == 0 {
+		return "0"
+	}
+	s := ""
+	for n > 0 {
+		s = string(rune('0'+n%10)) + s
+		n /= 10
+	}
+	return s
+}
+
+// loopBody returns the blocks of the natural loop(s) headed by h (h included): blocks dominated by h that reach h.
+func loopBody(h *ssa.BasicBlock) map[*ssa.BasicBlock]bool {
+	body := map[*ssa.BasicBlock]bool{h: true}
+	var stack []*ssa.BasicBlock
+	for _, p := range h.Preds {
+		if h.Dominates(p) && !body[p] {
+			body[p] = true
+			stack = append(stack, p)
+		}
+	}
+	for len(stack) > 0 {
+		b := stack[len(stack)-1]
+		stack = stack[:len(stack)-1]
+		for _, p := range b.Preds {
+			if !body[p] && h.Dominates(p) {
+				body[p] = true
+				stack = append(stack, p)
+			}
+		}
+	}
+	return body
 }
